@@ -570,6 +570,7 @@ class CliSim:
         # does not control (emsarray issue #139); the cross-check validates the argv/exit-status seam, not that race
         env['DASK_SCHEDULER'] = 'synchronous'
         env['PYTHONHASHSEED'] = '0'
+        env['TMPDIR'] = scratch      # the command's own TemporaryDirectory lands inside the run's scratch root
         real_out = p['out'] + '.subproc' + os.path.splitext(p['out'])[1]
         argv = [a if a != p['out'] else real_out for a in p['argv']]
         proc = subprocess.run([sys.executable, '-m', 'emsarray'] + argv, capture_output=True, text=True, env=env, cwd=scratch, timeout=300)
